@@ -1,4 +1,6 @@
 import RosuModel.Model.Builder
+import RosuModel.Lemmas.ReadSet
+import RosuModel.Model.ReadSet
 
 /-!
 # C18 — builder settings mean the same thing wherever they are set
@@ -249,5 +251,86 @@ example :
       |>.applyPerformance "Taiko" "clock_rate" (.num 250000)
       |>.applyPerformance "Taiko" "od" (.attr (-50000) true)).difficulty =
     { Diff.new with clockRate := some 100000, od := some (-20000, true) } := by decide
+
+/-! ## Which `Difficulty` fields a mode can read (generated read-set tables)
+
+`Gen/ReadSet.lean` is regenerated from the source on every run: the accessors of `impl Difficulty`
+with the fields each reads, the accessors called under each mode directory, the accessor calls in
+shared code (the attribute builder), a conservative data flow of `hit_windows()` / `build()` and the
+result fields each mode consumes.  `ReadSet.readSet mode` (Model/ReadSet.lean) composes them. -/
+
+open Rosu.ReadSet Rosu.Gen.ReadSet
+
+/-- Every shape met while extracting the read-set tables was understood. -/
+theorem readset_shapes_understood : readSetUnknown = [] := by decide
+
+/-- Every `Difficulty` setter assigns exactly the field of its own name, and there is one setter
+per field (so "setter `s` is dropped" and "field `s` keeps its old value" are the same thing). -/
+theorem difficulty_setters_write_own_field :
+    difficultyWriters = diffSetters.map (fun s => (s, [s])) ∧ difficultyFields = diffSetters := by decide
+
+/-- Outside the mode directories the only code calling a `Difficulty` accessor is
+`BeatmapAttributesBuilder::difficulty` — the shared reader that `readSet` models. -/
+theorem shared_readers_are_the_attribute_builder :
+    ∀ s ∈ sharedAccessorSites, s.1 = "src/model/beatmap/attributes.rs" ∧ s.2.1 = "difficulty" := by decide
+
+/-- The read sets only name `Difficulty` fields. -/
+theorem readset_fields_are_setters : ∀ mode ∈ modes, ∀ f ∈ readSet mode, f ∈ diffSetters := by decide
+
+/-- **A setter that `Performance` documents as irrelevant for a mode sets a field that no code of
+that mode can read** — neither through an accessor call in the mode's directory nor through the
+attribute builder (taiko consumes only `od_great`/`od_ok` of `hit_windows()`, which do not depend
+on the builder's `ar`/`cs`/`hp`; mania never builds attributes from the `Difficulty`). -/
+theorem dropped_setters_not_read :
+    ∀ q ∈ documentedNoops, q.1 ∈ diffSetters → q.1 ∉ readSet q.2 := by decide
+
+/-- Conversely, every field a mode can read has a forwarding `Performance` setter of that name. -/
+theorem read_fields_are_forwarded :
+    ∀ mode ∈ modes, ∀ f ∈ readSet mode, lookupArm f mode = some (.forward f) := by decide
+
+/-- Difficulty-level setters that are not forwarded set unread fields. -/
+theorem not_forwarded_not_read :
+    ∀ mode ∈ modes, ∀ s ∈ diffSetters, forwarded mode s = false → s ∉ readSet mode := by decide
+
+/-- **Dropping the irrelevant setters is invisible to the mode**: for every mode and every
+sequence of difficulty-level setter calls, the `Difficulty` a `Performance` ends up with (dropped
+setters skipped) and the `Difficulty` with *all* the calls applied agree on every field the mode's
+code can read. -/
+theorem dropped_setters_invisible (mode : String) (hm : mode ∈ modes)
+    (calls : List (String × Arg)) (hc : ∀ c ∈ calls, c.1 ∈ diffSetters) (a b : Diff)
+    (hab : agreeOn (readSet mode) a b) :
+    agreeOn (readSet mode) (expectedDiff mode calls a) (calls.foldl (fun d c => d.apply c.1 c.2) b) := by
+  induction calls generalizing a b with
+  | nil => exact hab
+  | cons c cs ih =>
+    simp only [List.foldl_cons, expectedDiff]
+    have hc1 : c.1 ∈ diffSetters := hc c List.mem_cons_self
+    refine ih (fun c' hc' => hc c' (List.mem_cons_of_mem _ hc')) _ _ ?_
+    intro f hf
+    have hfd := readset_fields_are_setters mode hm f hf
+    cases hfw : forwarded mode c.1 with
+    | true =>
+      simp only [if_true]
+      exact fieldEq_apply_both a b c.1 f c.2 hc1 hfd (hab f hf)
+    | false =>
+      have hnr := not_forwarded_not_read mode hm c.1 hc1 hfw
+      have hne : f ≠ c.1 := fun h => hnr (h ▸ hf)
+      simpa using fieldEq_apply_right a b c.1 f c.2 hne hc1 hfd (hab f hf)
+
+/-- The user-level form: `Performance::new(x)` configured through its own setters holds a
+`Difficulty` that the mode cannot tell apart from `Difficulty::new()` with every call applied. -/
+theorem perf_route_indistinguishable (mode : String) (hm : mode ∈ modes) (src : Nat)
+    (calls : List (String × Arg)) (hc : ∀ c ∈ calls, c.1 ∈ diffSetters) :
+    agreeOn (readSet mode)
+      (calls.foldl (fun b c => b.applyPerformance mode c.1 c.2) (PerfB.new src)).difficulty
+      (calls.foldl (fun d c => d.apply c.1 c.2) Diff.new) := by
+  rw [perf_setters_eq_difficulty_setters mode hm calls hc]
+  exact dropped_setters_invisible mode hm calls hc _ _
+    (fun f hf => fieldEq_refl _ f (readset_fields_are_setters mode hm f hf))
+
+/-- Non-vacuity: taiko reads `od` (through `hit_windows().od_great`) but not `ar`; osu! reads `ar`;
+mania reads neither `od` nor `hp` (its difficulty never consults the attribute builder). -/
+example : "od" ∈ readSet "Taiko" ∧ "ar" ∉ readSet "Taiko" ∧ "ar" ∈ readSet "Osu" ∧
+    "od" ∉ readSet "Mania" ∧ "hardrock_offsets" ∈ readSet "Catch" := by decide
 
 end Rosu.Builder
